@@ -278,6 +278,10 @@ theorem apply_inv_aux {U : List Nat} (hn : U.Nodup) (c : Cfg) {s s' : State} (hi
   | envRecTarget a t => have e := apply_envRecTarget h; subst e; exact keep rfl rfl
   | envCompliance ct cc => have e := apply_envCompliance h; subst e; exact keep rfl rfl
 
+theorem ok_bind {α β} (v : α) (f : α → Except Err β) : (Except.ok v >>= f) = f v := rfl
+
+theorem chk_in {x : Int} (h : in128 x) : chk x = .ok x := by unfold chk; rw [if_pos h]
+
 theorem base_init_inv (U : List Nat) (now : Nat) : Inv U (Fungible.init now) := by
   refine ⟨?_, ?_, ?_, ?_, ?_⟩
   · induction U with
